@@ -120,6 +120,29 @@ PROPS = {
                         "build_solution reports the value of the indicator variable (SOL channel, C11)"],
         "n": {"quick": 250, "thorough": 4000},
     },
+    "C18": {
+        "theorems": ["fieldTable_meets_spec", "C18_task_iff", "C18_worker_iff", "C18_select_iff", "C18_buffer_iff",
+                     "C18_problem_iff", "C18_cumulative_rejected", "C18_optional_rule_rejected", "C18_force_apply_rejected",
+                     "C18_unassigned_rejected", "C18_before_problem"],
+        "profiles": [("all", 1.0)],
+        "relevant": lambda o: False,       # only accept / reject decisions (and residues through later declarations)
+        "decl_only": True,
+        "spec": None,
+        "fieldtable": True,
+        "acc_grid": True,
+        "nontrivial": lambda s: True,
+        "rule": "ACC: an exhaustive boundary grid (467 cases): every constructor with values {-1,0,1,2,...} around each "
+                "bound, duplicate names per kind, selections of 0..3 workers x n in -1..4, cumulative sizes -1..3, optional-"
+                "task rules on mandatory / optional tasks, force-apply over mandatory / optional constraints, resource "
+                "constraints on assigned / unassigned / cumulative resources, every self-contained constructor before a "
+                "problem exists, each probe after a fixed 19-declaration context and repeated twice; the exception class of "
+                "the real constructor must equal the model's; plus random scripts with a 3 % stream of ill-formed "
+                "declarations; TABLE: pydantic field metadata regenerated into Lean on every run; distinct = distinct script",
+        "assumptions": ["pydantic enforces the field metadata it is given (checked by ACC, not proved)",
+                        "ResourceNonDelay / TasksContiguous / IndicatorResourceIdle on fewer than two busy intervals are rejected by "
+                        "an accidental duplicate-assertion error (known finding F32)"],
+        "n": {"quick": 150, "thorough": 3000},
+    },
     "C07": {
         "theorems": ["incLoop_spec", "C07_anytime", "C07_optimal"],
         "profiles": [("obj", 1.0)],
@@ -301,6 +324,9 @@ def check_script(driver, script, spec, cfg=None):
         if x != y:
             res["decl_diffs"].append(f"declaration {i} {json.dumps(script[i], default=str)}: real={x} model={y}")
     rel, oth = relevant_diffs(out, spec["relevant"])
+    if spec.get("decl_only") and (rel or oth):
+        # residues left by rejected constructors show up in the assertion list: relevant here
+        rel, oth = rel + oth, []
     res["equiv"] = None
     if (rel or oth) and out["solver"] is not None and not out["init_error"]:
         # tier 2 of the correspondence: are the two assertion sets logically equivalent?
@@ -375,6 +401,10 @@ def run_chunk(args):
                 summary["other"] += 1
             if r.get("equiv") == "equivalent":
                 summary["dist"]["equivalent_rewrites"] = summary["dist"].get("equivalent_rewrites", 0) + 1
+            if spec.get("decl_only") and r["decl_diffs"]:
+                # an accept / reject decision that differs from the proved decision logic is itself the failing input
+                summary["violations"].append({"label": label, "script": script, "kind": "ACC",
+                                              "what": "; ".join(r["decl_diffs"][:3])})
             if r["decl_diffs"] or r["rel"]:
                 summary["broken"].append({"label": label, "script": script, "equiv": r.get("equiv"),
                                           "witness": r.get("witness"),
@@ -442,6 +472,14 @@ def run_solver_item(prop, tier, it, d, summary):
             summary["violations"].append({"label": label, "script": script, "kind": "RUN", **viol})
 
 
+def pre_build(prop, rep):
+    if PROPS[prop].get("fieldtable"):
+        import subprocess
+        r = subprocess.run([sys.executable, "-m", "harness.gen_fieldtable"], cwd=VERIF, capture_output=True, text=True)
+        rep.notes.append("fieldtable: " + (r.stdout + r.stderr).strip()[-200:])
+        rep.oblige(r.returncode == 0, "TABLE translator (pydantic field metadata -> PS/Generated/FieldTable.lean)")
+
+
 def corpus_items(prop):
     items = []
     for pat in (os.path.join(VERIF, "corpus", "common", "*.json"), os.path.join(VERIF, "corpus", prop, "*.json")):
@@ -484,6 +522,9 @@ def run_channels(prop, rep):
     n = spec["n"][rep.tier if rep.tier in spec["n"] else "quick"]
     items = corpus_items(prop) + seeds_for(prop, rep.seed, n, spec["profiles"], rep.tier) + \
         solver_items(prop, rep.seed, rep.tier, spec)
+    if spec.get("acc_grid"):
+        from harness import acc
+        items = [("script", label, script) for label, script in acc.grid()] + items
     workers = min(14, max(1, (os.cpu_count() or 2) - 2)) if len(items) > 60 else 1
     chunks = [items[i::workers] for i in range(workers)]
     if workers == 1:
